@@ -1211,11 +1211,14 @@ def create_backend_witness(ctx):
 
         def h_ns(recv, prefix):
             seen["prefix"] = prefix
-            return {"opt_of_" + prefix: "V"}
+            return {"log_mode": "V:" + prefix, "port": 4242}
 
         def mk(name):
-            def fac(*a, **k):
-                seen["built"] = (name, a, dict(k))
+            # (a backend factory as the plug-ins declare them: working_dir plus the backend's own settings, each with a default)
+            def fac(working_dir=None, log_mode="full", port=12345, host="localhost", accounting_enabled=True):
+                k = {"working_dir": working_dir, "log_mode": log_mode, "port": port}
+                seen["built"] = (name, (), k)
+                seen["extra"] = {"host": host, "accounting_enabled": accounting_enabled}
                 return Obj("backend:" + name)
             return fac
 
@@ -1231,11 +1234,9 @@ def create_backend_witness(ctx):
         except Unsupported as exc:
             return n, diffs, f"{type(exc).__name__}: {exc}"
         n += 1
-        want = (sel, (), {"working_dir": PROJ, "opt_of_backend." + sel: "V"})
+        want = (sel, (), {"working_dir": PROJ, "log_mode": "V:backend." + sel, "port": 4242})
         got = seen.get("built")
-        if got is not None and got[1] == (PROJ,) and "working_dir" not in got[2]:
-            got = (got[0], (), dict(got[2], working_dir=PROJ))
-        if got != want or not (isinstance(out, Obj) and out._name == "backend:" + sel):
+        if got != want or seen.get("extra") != {"host": "localhost", "accounting_enabled": True} or not (isinstance(out, Obj) and out._name == "backend:" + sel):
             diffs.append(f"create_backend({sel!r}, ...) builds {got} from namespace {seen.get('prefix')!r}; expected factory {sel} with working_dir and exactly the "
                          f"'backend.{sel}' settings as keyword arguments")
     return n, diffs, None
